@@ -20,7 +20,9 @@ struct nv_vec
   _Bool    fin;       /* ghost: all coefficients finite */
   uint64_t grad_of;   /* ghost: identity of the point whose (sub-)gradient this vector holds, 0 if unknown */
 };
-struct nv_tuple_f64_f64_v { double _0; double _1; };
+/* ghost records of the ellipsoid stopping test (used by C03; see specs/C03) */
+struct nv_rec { double arg, res; uint64_t at; };
+struct nv_rec nv_sqrt_rec, nv_dot_rec;
 
 /* a vector with unknown contents.  ASSUMPTION (DESIGN 7, C02): the function is non-finite at non-finite points */
 static struct nv_vec nv_vec_fresh(void)
@@ -91,7 +93,9 @@ static _Bool nv_state_uib3(struct nv_state* s, const struct nv_vec* x, const str
 static _Bool nv_state_uib2(struct nv_state* s, const struct nv_vec* x, double fx) { return nv_state_uib(s, x, (const struct nv_vec*)0, fx); }
 
 /* erased scalar numerics (results of <cmath> on values computed from erased vectors) */
-static double nv_sqrt(double a) { return nv_nondet_double(); }
+/* std::sqrt / Eigen dot on erased operands: the value is unknown; the call is recorded (argument, result, evaluation count) */
+static double nv_sqrt(double a) { double r = nv_nondet_double(); nv_sqrt_rec.arg = a; nv_sqrt_rec.res = r; nv_sqrt_rec.at = nv_ver_counter; return r; }
+static double nv_dot(void) { double r = nv_nondet_double(); nv_dot_rec.res = r; nv_dot_rec.at = nv_ver_counter; return r; }
 static double nv_pow(double a, double b) { return nv_nondet_double(); }
 static double nv_exp(double a) { return nv_nondet_double(); }
 static double nv_dbl_epsilon(void) { return 2.220446049250313e-16; }
@@ -119,6 +123,11 @@ __CPROVER_ensures(nv_gcount <= nv_ver_counter && nv_ver_counter < 2000000000u &&
 #define NV_CONS_FULL(s) ((s).eval_ver == (s).ver && (s).fx_ver == (s).ver)
 #define NV_CONS_VALUE(s) ((s).fx_ver == (s).ver)
 #define NV_NONLS_ASSIGNS __CPROVER_assigns(nv_ver_counter, nv_gcount)
+#define NV_ELLIPSOID_GHOSTS , nv_sqrt_rec, nv_dot_rec
+#define NV_NONLS_ASSIGNS_X __CPROVER_assigns(nv_ver_counter, nv_gcount NV_ELLIPSOID_GHOSTS)
+#ifndef NV_ELLIPSOID_C03
+#define NV_ELLIPSOID_C03
+#endif
 /* loop invariant: the best state is an untested (max_iters), consistent, finite state not above the starting value */
 #define NV_BEST(s, CONSISTENT) ((s).m_status == NVE_solver_status_max_iters && (s).ver != 0 && CONSISTENT(s) && NV_ISFIN((s).m_fx) && (s).xfin \
   && (s).m_fx <= nv_f0 && NV_COUNTS2_OK(s))
@@ -135,5 +144,34 @@ static int64_t nv_param_patience(void) { int64_t p = nv_nondet_int64_t(); __CPRO
 __CPROVER_assigns(state, x, g, iteration, nv_ver_counter, nv_gcount) \
 __CPROVER_loop_invariant(NV_BEST(state, NV_CONS_FULL) && NV_BUDGET2(1)) \
 __CPROVER_loop_invariant(0 <= iteration && 2 * (uint64_t)iteration + 2 <= nv_ver_counter + nv_gcount) \
+NV_DECREASES2
+
+/* ---- ellipsoid */
+static double nv_param_R(void) { return nv_nondet_double(); }
+#define NV_CONTRACT_ellipsoid_do_minimize NV_NONLS_REQUIRES NV_NONLS_ASSIGNS_X NV_NONLS_ENSURES(NV_CONS_FULL, 1) NV_ELLIPSOID_C03
+#define NV_LOOP_ellipsoid_do_minimize_1 \
+__CPROVER_assigns(state, x, g, f, nv_ver_counter, nv_gcount NV_ELLIPSOID_GHOSTS) \
+__CPROVER_loop_invariant(NV_BEST(state, NV_CONS_FULL) && NV_BUDGET2(1)) \
+NV_DECREASES2
+
+/* ---- cocob */
+static double nv_param_L0_smooth(void) { return nv_nondet_double(); }
+static double nv_param_L0_nonsmooth(void) { return nv_nondet_double(); }
+#define NV_CONTRACT_cocob_do_minimize NV_NONLS_REQUIRES NV_NONLS_ASSIGNS NV_NONLS_ENSURES(NV_CONS_FULL, 1)
+#define NV_LOOP_cocob_do_minimize_1 \
+__CPROVER_assigns(state, x, gx, L, G, theta, reward, nv_ver_counter, nv_gcount) \
+__CPROVER_loop_invariant(NV_BEST(state, NV_CONS_FULL) && NV_BUDGET2(1)) \
+NV_DECREASES2
+
+/* ---- osga: update_if_better(x, fx) keeps the sub-gradient of the starting point, so only (x, f) is consistent;
+ * the pair (xb, fb) of the best trial point is carried across iterations: fb is the value at xb */
+static double nv_param_lambda(void) { return nv_nondet_double(); }
+static double nv_param_alpha_max(void) { return nv_nondet_double(); }
+static struct nv_tuple_f64_f64 nv_param_kappas(void) { struct nv_tuple_f64_f64 t; t._0 = nv_nondet_double(); t._1 = nv_nondet_double(); return t; }
+#define NV_CONTRACT_osga_do_minimize NV_NONLS_REQUIRES NV_NONLS_ASSIGNS NV_NONLS_ENSURES(NV_CONS_VALUE, 2)
+#define NV_LOOP_osga_do_minimize_1 \
+__CPROVER_assigns(state, h, gamma, u, eta, alpha, xb, fb, g, x, x_prime, h_hat, u_hat, u_prime, nv_ver_counter, nv_gcount) \
+__CPROVER_loop_invariant(NV_BEST(state, NV_CONS_VALUE) && NV_BUDGET2(2)) \
+__CPROVER_loop_invariant(xb.id != 0 && NV_SAME(fb, xb.fval)) \
 NV_DECREASES2
 #endif
